@@ -11,6 +11,7 @@ import (
 	"encoding/json"
 	"fmt"
 	"math/rand"
+	"net/url"
 	"os"
 	"path"
 	"sort"
@@ -142,8 +143,12 @@ func c01vViewVC(c vc.VerifiableCredential, dids, urls map[string]any) map[string
 				var en revocation.StatusList2021Entry
 				if err := json.Unmarshal(s.Raw(), &en); err != nil {
 					e["entryValid"] = false
+					e["unmarshals"], e["urlOK"], e["entryId"] = false, false, ""
 				} else {
 					e["purpose"], e["listCred"] = en.StatusPurpose, en.StatusListCredential
+					// deepening round: the inputs of StatusList2021Entry.Validate the model computes the verdict from (net/url is a contract)
+					_, uerr := url.ParseRequestURI(en.StatusListCredential)
+					e["unmarshals"], e["urlOK"], e["entryId"] = true, uerr == nil, en.ID
 					if i, err := strconv.Atoi(en.StatusListIndex); err == nil && i >= 0 {
 						e["index"] = i
 					}
